@@ -15,6 +15,7 @@ runs over the same world end one in `Ok` with a valid solution and the other in 
 (`C02_not_both`).
 -/
 import PubgrubProofs.StoreInvariant
+import PubgrubProofs.RangeAnyOrder
 
 namespace Pubgrub.C02
 open Pubgrub
@@ -40,5 +41,19 @@ theorem C02_not_both (W : World P S V M) (hW : W.SetsValid) (debug debug' : Bool
     ¬ IsSolution W root rv (fun p => SmallMap.get sel p) := by
   intro hsol
   exact noSolution_sound W hW debug fuel root rv s tree h ⟨_, hsol⟩
+
+/-! ### `Range V` over ANY linear order (the discrete `u32`, `SemanticVersion` included), where `Range` is
+not a `LawfulVersionSet`: pulled back along the embedding into `Range (V ×ₗ ℚ)` (RangeHom, HomSolver,
+RangeAnyOrder) -/
+section AnyOrder
+variable {P V M Pr E : Type} [DecidableEq P] [LinearOrder V] [LE Pr] [DecidableLE Pr]
+
+theorem C02_range_noSolution_sound (W : World P (Range V) V M) (hW : W.RangesWF) (debug : Bool) (fuel : Nat)
+    (root : P) (rv : V) (s : SolverState P (Range V) V M Pr) (tree : DerivationTree P (Range V) V M)
+    (h : Reachable (E := E) W debug fuel root rv (s, .noSolution tree)) :
+    ¬ ∃ σ : P → Option V, IsSolution W root rv σ :=
+  range_noSolution_sound W hW debug fuel root rv s tree h
+
+end AnyOrder
 
 end Pubgrub.C02
